@@ -125,7 +125,7 @@ def impl_rate(case):
         w.restore()
 
 
-SEQID = ['ida', 'idb']
+SEQID = ['AB0001.1', 'AB0001.2']   # accession.version ids: equal up to the last dot, must not share a cache file
 EXT = [None, 'fa']
 
 
